@@ -237,3 +237,54 @@ pub fn hash_lines(rng: &mut Rng, idx: u64, maxvars: usize, maxops: usize) -> Vec
     out.push(format!("{} => {}", head, r.unwrap_or_else(|e| e)));
     out
 }
+
+/// debugging aid: re-run the program of a stored `hash kind=prog` line on the semantic-hash SDD
+/// builder of the current tree and print, per pool entry, its truth table, its cached hash and
+/// the first entry the builder judges equal
+pub fn probe(line: &str) {
+    let head = line.split(" => ").next().unwrap();
+    let rest = line.split(" => ").nth(1).unwrap_or("");
+    let get = |src: &str, k: &str| -> String {
+        src.split(' ').find_map(|t| t.strip_prefix(&format!("{}=", k)).map(|x| x.to_string())).unwrap_or_default()
+    };
+    let n: usize = get(head, "n").parse().unwrap();
+    let ops = parse_ops(&get(head, "ops"));
+    let p: u128 = get(rest, "P").parse().unwrap();
+    let vt = parse_vt(&get(rest, "vt1"));
+    fn run<const P: u128>(n: usize, vt: &VT, ops: &[Op]) {
+        let sem = SemanticSddBuilder::<P>::new(vt.to_vtree());
+        let qs = exec_sem(&sem, ops);
+        for (i, q) in qs.iter().enumerate() {
+            let first = (0..=i).find(|&j| sem.eq(qs[j], *q)).unwrap();
+            println!("#{} tt={} hash={} eqfirst={} ptr={:?}", i, sdd_tt(*q, n), sem.cached_semantic_hash(*q).value(), first, q);
+        }
+    }
+    if p == primes::U32_SMALL {
+        run::<{ primes::U32_SMALL }>(n, &vt, &ops)
+    } else if p == primes::U32_TINY {
+        run::<{ primes::U32_TINY }>(n, &vt, &ops)
+    } else {
+        run::<{ primes::U64_LARGEST }>(n, &vt, &ops)
+    }
+}
+
+fn parse_vt(s: &str) -> VT {
+    fn go(c: &[u8], i: &mut usize) -> VT {
+        if c[*i] == b'(' {
+            *i += 1;
+            let l = go(c, i);
+            *i += 1; // ','
+            let r = go(c, i);
+            *i += 1; // ')'
+            VT::Node(Box::new(l), Box::new(r))
+        } else {
+            let st = *i;
+            while *i < c.len() && c[*i].is_ascii_digit() {
+                *i += 1;
+            }
+            VT::Leaf(std::str::from_utf8(&c[st..*i]).unwrap().parse().unwrap())
+        }
+    }
+    let mut i = 0;
+    go(s.as_bytes(), &mut i)
+}
